@@ -2549,6 +2549,12 @@ impl Compiler {
         // Create a new compiler for the function body
         let mut func_compiler = super::Compiler::new();
 
+        // Propagate source file for stack traces
+        func_compiler.source_file = self.source_file.clone();
+        if let Some(ref path) = self.source_file {
+            func_compiler.builder.set_source_file(path.clone());
+        }
+
         // Reserve registers for parameters - they are passed in registers 0, 1, 2...
         // We must reserve these before any other register allocation
         if !params.is_empty() {
